@@ -15,6 +15,8 @@ Alpha == <<
   "sw t0, 0(sp)", "sw s0, 4(sp)", "sw a0, 8(sp)", "sw ra, 12(sp)", "sw s0, 0(sp)",
   "lw t0, 0(sp)", "lw s0, 4(sp)", "lw a0, 8(sp)", "lw ra, 12(sp)", "lw a7, 0(sp)", "lw s0, 0(sp)",
   "sb t0, 0(sp)", "lb t1, 0(sp)", "sw t0, -4(sp)", "lw t1, -4(sp)",
+  "sw zero, 0(sp)", "sw zero, 4(sp)", "sw t0, 16(sp)", "sw a0, 16(sp)", "sh t0, 6(sp)", "sb t0, 7(sp)", "lh t1, 4(sp)", "lbu t1, 8(sp)",
+  "mv s1, sp", "mv sp, s1", "addi sp, s1, 0", "li a7, 10", "li a7, 93", "ecall", "li t0, 7", "addi t1, t0, 1",
   "li t0, 10", "li t0, -1", "li a0, 2147483647", "li s0, 3", "li a7, 1", "li t1, 5",
   "mv t0, a0", "mv s0, t0", "mv a0, s0", "mv t1, sp",
   "add t0, t0, t1", "sub t1, t0, sp", "sub t1, sp, t0", "addi t0, t0, 1", "addi s0, sp, 4",
